@@ -28,7 +28,17 @@ def parse_hex_blocks(out):
 
 def one_dir(run, model, rng, nfiles, sub=False):
     plugins = rng.random() < 0.7
-    files = dirgen.gen_dir(model, rng, nfiles, plugins=plugins)
+    big = rng.random() < 0.3
+    files = dirgen.gen_dir(model, rng, nfiles, plugins=plugins, maxsecs=8 if big else 3, maxpayload=rng.choice([600, 1500, 5000]) if big else 24)
+    if big and rng.random() < 0.7:
+        # a PEL whose primary SRC lies beyond the first kilobyte / the first 4 KB (a large section before it)
+        import struct
+        from props import c04
+        words = b"".join(struct.pack(">I", w) for w in (0x020000F0, 1, 2, 3, 4, 5, 6, 7))
+        src = bytes([2, 0, 0, 9, 0, 0, 0, 72]) + words + b"BD8D2002".ljust(32, b" ")
+        eid = 0x52000000 + rng.randrange(1 << 16)
+        d = c04.mini_pel(b"O", [(b"UD", 1, 7, 0x1234, bytes(rng.randrange(256) for _ in range(rng.choice([990, 1100, 4200])))), (b"PS", 1, 0, 0x2000, src)])
+        files.append(("late_src_%08X" % eid, dirgen.set_ids(d, eid=eid), dict(kind="pel", eid=eid)))
     bits = rng.choice([0, 0, 1, 1, rng.randrange(64)])
     sevs = tuple(sorted(rng.sample([0, 1, 2, 4, 5, 6, 7], rng.randrange(0, 3)))) if rng.random() < 0.4 else ()
     rev = rng.random() < 0.4
